@@ -106,6 +106,9 @@ func (r *run) mutator() string {
 	return "earlier-receiver"
 }
 
+// sig builds "<component>/<interface>/<what>:<Go type>". Interface and "what" names are kept short on
+// purpose: the kernel names a replay file after the first 60 characters of oracle+sig plus the seed,
+// so two different signatures of one run must differ early (they differ in interface or in "what").
 func (r *run) sig(api, what, typ string) string {
 	return fmt.Sprintf("%s/%s/%s:%s", r.comp, api, what, typ)
 }
@@ -181,17 +184,17 @@ func (r *run) observe(who, api string, val any, exp []byte, ref any) *obs {
 	if !bytes.Equal(o.got, exp) {
 		d := diffLeaves(leavesOf(ref), leavesOf(val))
 		if nmut == 0 {
-			r.violate("content", r.sig(api, "received-value-differs-from-value-handed-in", o.typ),
+			r.violate("content", r.sig(api, "received-differs-before-any-mutation", o.typ),
 				"%s got a %s via %s whose content differs from the value handed to %s although nobody has modified anything yet: %s", who, o.typ, api, r.comp, d)
 		} else {
-			r.violate("mutation-visible", r.sig(api, "received-value-reflects-"+r.mutator()+"s-mutation", o.typ),
+			r.violate("mutation-visible", r.sig(api, "received-reflects-"+r.mutator()+"s-mutation", o.typ),
 				"%s got a %s via %s/%s whose content differs from the original after %d in-place overwrite(s) by the %s of its own object: %s", who, o.typ, r.comp, api, nmut, r.mutator(), d)
 		}
 	}
 	// (2) no mutable memory in common with the object handed in
 	for _, h := range hs {
 		if pa, pb, ok := overlap(o.rngs, h.rngs); ok {
-			r.violate("aliasing", r.sig(api, "received-value-shares-memory-with-object-handed-in", o.typ),
+			r.violate("aliasing", r.sig(api, "shares-memory-with-object-handed-in", o.typ),
 				"the %s that %s got via %s/%s reaches the same memory at %s as the object handed in by %s at %s", o.typ, who, r.comp, api, pa, h.who, pb)
 			break
 		}
@@ -199,13 +202,16 @@ func (r *run) observe(who, api string, val any, exp []byte, ref any) *obs {
 	// (3) no mutable memory in common with any value received earlier
 	for _, e := range earlier {
 		if pa, pb, ok := overlap(o.rngs, e.rngs); ok {
-			apis := e.api
-			if e.api != api {
-				a := []string{e.api, api}
+			apis, typs := api, o.typ
+			if e.api != api { // one order-independent signature per pair of interfaces
+				a, t := []string{e.api + "|" + e.typ, api + "|" + o.typ}, [2][]string{}
 				sort.Strings(a)
-				apis = a[0] + "+" + a[1]
+				for i := range a {
+					t[i] = strings.SplitN(a[i], "|", 2)
+				}
+				apis, typs = t[0][0]+"+"+t[1][0], t[0][1]+"+"+t[1][1]
 			}
-			r.violate("aliasing", r.sig(apis, "two-received-values-share-memory", o.typ),
+			r.violate("aliasing", r.sig(apis, "two-received-values-share-memory", typs),
 				"the %s that %s got via %s/%s reaches the same memory at %s as the %s that %s got earlier via %s at %s", o.typ, who, r.comp, api, pa, e.typ, e.who, e.api, pb)
 			break
 		}
@@ -232,7 +238,7 @@ func (o *obs) recheck(when string) {
 	}
 	// compared with what was received (a value that was already wrong then has been reported then)
 	if now := canon(o.val); !bytes.Equal(now, o.got) {
-		o.r.violate("mutation-visible", o.r.sig(o.api, "held-value-changed-by-"+o.r.mutator()+"s-mutation", o.typ),
+		o.r.violate("mutation-visible", o.r.sig(o.api, "held-changed-by-"+o.r.mutator()+"s-mutation", o.typ),
 			"the %s that %s received via %s/%s and never modified has changed since (%s) after in-place overwrites by the %s of its own object: %s", o.typ, o.who, o.r.comp, o.api, when, o.r.mutator(), diffLeaves(leavesOf(o.ref), leavesOf(o.val)))
 	}
 }
@@ -393,7 +399,7 @@ func (r *run) runStore(ctx context.Context, wg *sync.WaitGroup, fresh func() any
 		v := fresh()
 		r.hand("second-writer", v)
 		if err := store(ctx, v); err != nil {
-			r.violate("mutation-visible", r.sig("store", "identical-restore-rejected-after-"+r.mutator()+"s-mutation", typeName(v)),
+			r.violate("mutation-visible", r.sig("store", "restore-rejected-after-"+r.mutator()+"s-mutation", typeName(v)),
 				"storing a fresh value identical to the original was rejected (%s) after %d in-place overwrite(s) by the %s: the stored datum has changed", firstLine(err.Error()), r.nmut, r.mutator())
 		}
 	}
@@ -428,7 +434,7 @@ func scenDutyDB(r *run, ctx context.Context, wg *sync.WaitGroup) {
 		}
 		ref := mkAttData(slot, 0, seed)
 		for _, ci := range []uint64{comm, 0} {
-			reads = append(reads, readAPI{"await-attestation", func(ctx context.Context) (any, error) {
+			reads = append(reads, readAPI{"await-att", func(ctx context.Context) (any, error) {
 				v, err := db.AwaitAttestation(ctx, slot, ci)
 				if err != nil {
 					return nil, err
@@ -462,7 +468,7 @@ func scenDutyDB(r *run, ctx context.Context, wg *sync.WaitGroup) {
 			panic(err)
 		}
 		root := must(data.HashTreeRoot())
-		reads = append(reads, readAPI{"await-agg-attestation", func(ctx context.Context) (any, error) {
+		reads = append(reads, readAPI{"await-agg-att", func(ctx context.Context) (any, error) {
 			v, err := db.AwaitAggAttestation(ctx, slot, root, eth2p0.CommitteeIndex(comm))
 			if err != nil {
 				return nil, err
@@ -493,7 +499,7 @@ func scenDutyDB(r *run, ctx context.Context, wg *sync.WaitGroup) {
 				sd = seed + sc
 			}
 			ref := mkContribution(slot, sc, sd)
-			reads = append(reads, readAPI{"await-sync-contribution", func(ctx context.Context) (any, error) {
+			reads = append(reads, readAPI{"await-contrib", func(ctx context.Context) (any, error) {
 				v, err := db.AwaitSyncContribution(ctx, slot, sc, ref.BeaconBlockRoot)
 				if err != nil {
 					return nil, err
@@ -597,7 +603,7 @@ func scenParSigDB(r *run, ctx context.Context, wg *sync.WaitGroup) {
 			mu.Lock()
 			triggers++
 			mu.Unlock()
-			r.receive(wg, fmt.Sprintf("threshold-subscriber%d", si), "threshold-sub", m, canon(ref), ref)
+			r.receive(wg, fmt.Sprintf("threshold-subscriber%d", si), "thresh-sub", m, canon(ref), ref)
 			return nil
 		})
 		db.SubscribeInternal(func(ctx context.Context, _ core.Duty, set core.ParSignedDataSet) error {
@@ -652,7 +658,7 @@ func scenParSigDB(r *run, ctx context.Context, wg *sync.WaitGroup) {
 	// all shares sign the same message: the threshold must have been reached exactly when the
 	// second one was stored, from the ORIGINAL first partial
 	if triggers == 0 {
-		r.violate("mutation-visible", r.sig("threshold-sub", "threshold-never-reached-after-"+r.mutator()+"s-mutation", "core.ParSignedData("+k.name+")"),
+		r.violate("mutation-visible", r.sig("thresh-sub", "trigger-missing-after-"+r.mutator()+"s-mutation", "core.ParSignedData("+k.name+")"),
 			"%d shares stored matching partials (threshold %d) but no threshold subscriber was called after %d in-place overwrite(s) by the %s: the stored partials no longer match", stored, threshold, r.nmut, r.mutator())
 		return
 	}
@@ -661,7 +667,7 @@ func scenParSigDB(r *run, ctx context.Context, wg *sync.WaitGroup) {
 		set := mkSet(sh)
 		r.hand("second-writer", set)
 		if err := db.StoreExternal(ctx, duty, set); err != nil {
-			r.violate("mutation-visible", r.sig("store", "identical-restore-rejected-after-"+r.mutator()+"s-mutation", "core.ParSignedData("+k.name+")"),
+			r.violate("mutation-visible", r.sig("store", "restore-rejected-after-"+r.mutator()+"s-mutation", "core.ParSignedData("+k.name+")"),
 				"storing again a fresh partial identical to the original of share %d was rejected (%s) after %d in-place overwrite(s) by the %s: the stored partial has changed", sh, firstLine(err.Error()), r.nmut, r.mutator())
 			break
 		}
@@ -780,7 +786,7 @@ func scenSigAgg(r *run, ctx context.Context, wg *sync.WaitGroup) {
 	for si := 0; si < 2; si++ {
 		agg.Subscribe(func(_ context.Context, duty core.Duty, set core.SignedDataSet) error {
 			cl := calls[duty]
-			r.receive(wg, fmt.Sprintf("subscriber%d", si), "subscriber", set, cl.exp, cl.ref)
+			r.receive(wg, fmt.Sprintf("subscriber%d", si), "sub", set, cl.exp, cl.ref)
 			return nil
 		})
 	}
@@ -995,7 +1001,7 @@ func scenFetcher(r *run, ctx context.Context, wg *sync.WaitGroup) {
 	exp := canon(ref)
 	for si := 0; si < 2; si++ {
 		f.Subscribe(func(_ context.Context, _ core.Duty, set core.UnsignedDataSet) error {
-			r.receive(wg, fmt.Sprintf("subscriber%d", si), "subscriber", set, exp, ref)
+			r.receive(wg, fmt.Sprintf("subscriber%d", si), "sub", set, exp, ref)
 			return nil
 		})
 	}
@@ -1144,14 +1150,14 @@ func scenScheduler(r *run, ctx context.Context, wg *sync.WaitGroup) {
 				if err != nil {
 					continue // not resolved yet / trimmed: not this property's subject
 				}
-				got(fmt.Sprintf("reader%d", i), "get-duty-definition", d, set)
+				got(fmt.Sprintf("reader%d", i), "get-duty-def", d, set)
 			}
 		})
 	}
 	verifrt.Sleep(30 * time.Second) // slots 0 and 1 (12s each) with all their offsets
 	for _, d := range queries {
 		if set, err := s.GetDutyDefinition(ctx, d); err == nil {
-			o := r.observe("late-reader", "get-duty-definition", set, canon(want[d]), want[d])
+			o := r.observe("late-reader", "get-duty-def", set, canon(want[d]), want[d])
 			_ = o
 		}
 	}
@@ -1181,7 +1187,7 @@ func scenValidatorAPI(r *run, ctx context.Context, wg *sync.WaitGroup) {
 	)
 	switch verifrt.Intn("cfg", 5) {
 	case 0:
-		api = "submit-attestations"
+		api = "attestations-sub"
 		f := []fork{{eth2spec.DataVersionElectra, false}, {eth2spec.DataVersionFulu, false}}[verifrt.Intn("cfg", 2)]
 		mkAtts := func() []*eth2spec.VersionedAttestation {
 			var as []*eth2spec.VersionedAttestation
@@ -1200,7 +1206,7 @@ func scenValidatorAPI(r *run, ctx context.Context, wg *sync.WaitGroup) {
 		}
 		cover(r.comp, "VersionedAttestation/"+f.String())
 	case 1:
-		api = "submit-aggregate-attestations"
+		api = "aggregates-sub"
 		fi := verifrt.Intn("cfg", len(attForks))
 		k := sdKinds[5] // VersionedSignedAggregateAndProof
 		mkAggs := func() []*eth2spec.VersionedSignedAggregateAndProof {
@@ -1221,7 +1227,7 @@ func scenValidatorAPI(r *run, ctx context.Context, wg *sync.WaitGroup) {
 		}
 		cover(r.comp, "VersionedSignedAggregateAndProof/"+attForks[fi].String())
 	case 2:
-		api = "submit-sync-committee-messages"
+		api = "syncmsgs-sub"
 		mkMsgs := func() []*altair.SyncCommitteeMessage {
 			var ms []*altair.SyncCommitteeMessage
 			for i := 0; i < nv; i++ {
@@ -1238,7 +1244,7 @@ func scenValidatorAPI(r *run, ctx context.Context, wg *sync.WaitGroup) {
 		}
 		cover(r.comp, "SignedSyncMessage")
 	case 3:
-		api = "submit-sync-committee-contributions"
+		api = "synccontribs-sub"
 		mkCs := func() []*altair.SignedContributionAndProof {
 			var cs []*altair.SignedContributionAndProof
 			for i := 0; i < nv; i++ {
@@ -1258,7 +1264,7 @@ func scenValidatorAPI(r *run, ctx context.Context, wg *sync.WaitGroup) {
 		}
 		cover(r.comp, "SignedSyncContributionAndProof")
 	default:
-		api = "submit-voluntary-exit"
+		api = "exit-sub"
 		mkExit := func() *eth2p0.SignedVoluntaryExit {
 			e := fillNew[eth2p0.SignedVoluntaryExit](seed)
 			e.Message.ValidatorIndex, e.Message.Epoch = 0, 8
